@@ -46,6 +46,27 @@ class Regime:
         return t
 
 
+class HashRegime(Regime):
+    """regime whose witness assigns every symbol a fixed pseudo-random rational derived from its name (no need to list symbols)"""
+
+    def __init__(self, name):
+        Regime.__init__(self, name, {})
+
+    @staticmethod
+    def value(s):
+        import hashlib
+        h = int(hashlib.sha256(str(s).encode()).hexdigest()[:8], 16)
+        return sp.Rational(h % 17 + 2, h % 5 + 3) * (-1) ** (h % 2) if not s.is_positive else sp.Rational(h % 17 + 2, h % 5 + 3)
+
+    def decide(self, rel):
+        if rel is sp.true or rel is sp.false or isinstance(rel, bool):
+            return bool(rel)
+        for s_ in rel.free_symbols:
+            if s_ not in self.witness:
+                self.witness[s_] = self.value(s_)
+        return Regime.decide(self, rel)
+
+
 def _conv(x):
     if isinstance(x, S):
         return x.e
@@ -361,7 +382,8 @@ class Shimmed:
                 self.saved[k] = v
                 g[k] = S(sp.pi)
         for k, v in self.extra.items():
-            self.saved[k] = g.get(k, None)
+            if k not in self.saved:
+                self.saved[k] = g.get(k, None)
             g[k] = v
         return self
 
